@@ -50,6 +50,12 @@ HAND = {
 theorem xor_eq_zipWith (a b : Bytes) (h : a.length = b.length) : Gen.tools.xor a b = .ok (List.zipWith (· ^^^ ·) a b) := by
   rw [ModRefines.tools_xor, _root_.Pyemv.C19.xor_eq_zipWith a b h]
 
+theorem xor_bigendian_host (a b : Bytes) (h : a.length = b.length) :
+    Gen.tools.xor_bigendian a b = .ok (List.zipWith (· ^^^ ·) a b) ∧ Gen.tools.xor_bigendian a b = Gen.tools.xor a b := by
+  rw [ModRefines.tools_xor_bigendian, ModRefines.tools_xor, (_root_.Pyemv.C19.xor_bigendian_host a b h).1,
+    _root_.Pyemv.C19.xor_eq_zipWith a b h]
+  exact ⟨rfl, rfl⟩
+
 theorem xor_same_length (a b : Bytes) : ∃ r, Gen.tools.xor a b = .ok r ∧ r.length = a.length :=
   ⟨_, ModRefines.tools_xor a b, _root_.Pyemv.C19.xor_same_length a b⟩
 
